@@ -12,12 +12,17 @@
 
       _wake_tree                 `wakeCells` / `wakeTree`        (cycle walk, reads its own writes)
       _wake_kernel               `wakeKernelTask` / `wakeKernelLaunch`
-      _wake_collision_kernel     `collisionTarget` / `wakeLaunch` (tasks = (tree, wake value))
-      _sweep_awake_trees         `sweepVal` / `sweepTask` / `sweep`
-      _check_island_can_sleep    `checkTask` / `check` / `islandCanSleep`
+      _tree_can_sleep            `canSleepSpec`                  (closed form of the three early-return loops)
+      _wake_collision_kernel     `collisionTarget` / `collisionTaskOf` / `collisionTask` / `collisionLaunch`
+      _wake_tendon_kernel        `wrapTree`, `tendonTrees`, `tendonScan` (pass 1), `tendonWakeWrites` (pass 2)
+      _wake_equality_kernel      `eqTrees`, `eqBodyWrites`; `_tendon_wake_val` = `tendonWakeVal`
+      generic                    `wakeLaunch` (tasks = (tree, wake value)), `launchK` (generated kernels on the state)
+      _sweep_awake_trees         `sweepVal` / `sweepTask` / `sweep`, `countdown`, `trail`
+      _check_island_can_sleep    `checkTask` / `check` / `islandCanSleep`, `applyIcs`
       _build_cycles              `buildCycles` (state), `buildCyclesWrites` (exact write list, incl. qvel/qacc zeroing)
-      _update_sleep_trees        `updTreesWrites`, `treeAwake`
+      _update_sleep_trees        `updTreesWrites`, `treeAwake`;  _zero_sleep_counters  `zeroCountersWrites`
       sleep()                    `sleepStep` = sweep; check (from ones); build
+      well-formedness            `WF` (sleeping entries form cycles), `InRange`, `onCycle`
 
   What is abstracted: other worlds (every kernel reads and writes row `worldid` only), int32 wrap-around,
   the interleaving INSIDE a task (a task's reads and writes are one atomic step).
@@ -288,6 +293,94 @@ def zeroCountersWrites {K : Type} (w : Int) : List (Write K) :=
 /-- fold a kernel (given the current `tree_asleep` array it returns its write list) over the task order -/
 def launchK {K τ : Type} (w : Int) (task : (Int → Int → Int) → τ → List (Write K)) (order : List τ) (s : List Int) : List Int :=
   order.foldl (fun s tid => applyAsleep w s (task (asArr s) tid)) s
+
+
+/-! ## `_tree_can_sleep` in closed form -/
+
+/-- some component of a spatial force is nonzero (`!=` as the scalar type decides it) -/
+def anyNonzero6 {K : Type} [Scalar K] (x : V6 K) : Bool :=
+  Scalar.bne x.c0 (Scalar.lit 0 0 : K) || Scalar.bne x.c1 (Scalar.lit 0 0 : K) || Scalar.bne x.c2 (Scalar.lit 0 0 : K)
+    || Scalar.bne x.c3 (Scalar.lit 0 0 : K) || Scalar.bne x.c4 (Scalar.lit 0 0 : K) || Scalar.bne x.c5 (Scalar.lit 0 0 : K)
+
+/-- `_tree_can_sleep(treeid, tol)`: policy is not NEVER (= 1), no body of the tree has a nonzero `xfrc_applied`
+    component, no dof of the tree has nonzero `qfrc_applied`, and every dof is slow:
+    `|dof_length · qvel| < tol` if `tol > 0`, `qvel == 0` otherwise -/
+def canSleepSpec {K : Type} [Scalar K] (nbody : Int) (body_treeid : Int → Int) (dof_length : Int → K)
+    (adr num policy : Int) (qvel qfrc : Int → K) (xfrc : Int → V6 K) (treeid : Int) (tol : K) : Bool :=
+  if policy = 1 then false
+  else if (List.range nbody.toNat).any (fun (b : Nat) => decide (body_treeid b = treeid) && anyNonzero6 (xfrc b)) then false
+  else if (List.range num.toNat).any (fun (d : Nat) => Scalar.bne (qfrc (adr + d)) (Scalar.lit 0 0 : K)) then false
+  else if (List.range num.toNat).any (fun (d : Nat) =>
+      if Scalar.gt tol (Scalar.lit 0 0 : K) then Scalar.ge (Scalar.abs (dof_length (adr + d) * qvel (adr + d))) tol
+      else Scalar.bne (qvel (adr + d)) (Scalar.lit 0 0 : K)) then false
+  else true
+
+/-! ## what a `_wake_collision_kernel` thread does to world `w` -/
+
+def collisionTaskOf (w : Int) (body_treeid geom_bodyid : Int → Int) (tree_awake_in : Int → Int → Int)
+    (contact_geom_in : Int → I2) (contact_worldid_in nacon_in : Int → Int) (conid : Int) : Option (Int × Int) :=
+  if conid < nacon_in 0 ∧ 0 ≤ (contact_geom_in conid).c0 ∧ 0 ≤ (contact_geom_in conid).c1 ∧ contact_worldid_in conid = w then
+    collisionTarget (body_treeid (geom_bodyid (contact_geom_in conid).c0)) (body_treeid (geom_bodyid (contact_geom_in conid).c1))
+      (tree_awake_in w (body_treeid (geom_bodyid (contact_geom_in conid).c0)))
+      (tree_awake_in w (body_treeid (geom_bodyid (contact_geom_in conid).c1)))
+  else none
+
+/-! ## `island_can_sleep` row -/
+
+def applyIcs1 {K : Type} (w : Int) (ics : List Int) (x : Write K) : List Int :=
+  match x.val, x.kind, x.idx with
+  | .i v, .amin, [w', c] => if x.arr = "island_can_sleep_out" ∧ w' = w then wr ics c (min (rd ics c) v) else ics
+  | _, _, _ => ics
+
+def applyIcs {K : Type} (w : Int) (ics : List Int) (ws : List (Write K)) : List Int := ws.foldl (applyIcs1 w) ics
+
+
+/-! ## tendons and equalities -/
+
+/-- tree of the `idx`-th wrap object of a tendon path (JOINT = 1, SITE = 3, SPHERE = 4, CYLINDER = 5; else −1) -/
+def wrapTree (body_treeid jnt_bodyid geom_bodyid site_bodyid wrap_type wrap_objid : Int → Int) (idx : Int) : Int :=
+  if wrap_type idx = 1 then body_treeid (jnt_bodyid (wrap_objid idx))
+  else if wrap_type idx = 3 then body_treeid (site_bodyid (wrap_objid idx))
+  else if wrap_type idx = 4 ∨ wrap_type idx = 5 then body_treeid (geom_bodyid (wrap_objid idx))
+  else -1
+
+/-- the trees along a tendon, in path order -/
+def tendonTrees (wt : Int → Int) (adr num : Int) : List Int := (List.range num.toNat).map (fun (i : Nat) => wt (adr + (i : Int)))
+
+/-- `_wake_tendon_trees` / pass 2 of `_wake_tendon_kernel`: one `_wake_tree(t, v)` (all on the PRE-TASK array `a`)
+    for every tree of the path whose `tree_awake` flag is 0 -/
+def tendonWakeCells (n : Int) (a awake : Int → Int) (trees : List Int) (v : Int) : List Int :=
+  trees.flatMap (fun t => if t ≥ 0 ∧ awake t = 0 then wakeCells n a t v else [])
+
+def tendonWakeWrites {K : Type} (w n : Int) (a awake : Int → Int) (trees : List Int) (v : Int) : List (Write K) :=
+  (tendonWakeCells n a awake trees v).map (fun c => setAsleep w c v)
+
+/-- pass 1 of `_wake_tendon_kernel`: `(any_awake, wakeval)`; `wakeval` starts at `K_AWAKE_VAL` and is lowered to
+    the countdown of every flag-1 tree -/
+def tendonScan (a awake : Int → Int) (trees : List Int) : Int × Int :=
+  trees.foldl (fun st t => if t ≥ 0 ∧ awake t = 1 then ((1 : Int), if a t < st.2 then a t else st.2) else st) ((0 : Int), AWAKE_VAL)
+
+/-- `_tendon_wake_val`: the smallest countdown among the flag-1 trees of the path, 0 if there is none -/
+def tendonWakeVal (a awake : Int → Int) (trees : List Int) : Int :=
+  trees.foldl (fun wv t => if t ≥ 0 ∧ awake t = 1 then (if wv = 0 ∨ a t < wv then a t else wv) else wv) 0
+
+/-- the two trees of a CONNECT (0) / WELD (1) / JOINT (2) equality -/
+def eqTrees (body_treeid jnt_bodyid site_bodyid : Int → Int) (eqtype objtype id1 id2 : Int) : Int × Int :=
+  if eqtype = 0 ∨ eqtype = 1 then
+    (if objtype = 1 then (body_treeid id1, body_treeid id2) else (body_treeid (site_bodyid id1), body_treeid (site_bodyid id2)))
+  else if eqtype = 2 then
+    ((if id1 ≥ 0 then body_treeid (jnt_bodyid id1) else -1), (if id2 ≥ 0 then body_treeid (jnt_bodyid id2) else -1))
+  else (-1, -1)
+
+/-- the writes of a CONNECT / WELD / JOINT equality task, given the two trees, their states
+    (`tree_awake` flag, or −1 = STATIC for "no tree") and the two `_sleep_cycle` values -/
+def eqBodyWrites {K : Type} (w n : Int) (a : Int → Int) (t1 t2 s1 s2 c1 c2 : Int) : List (Write K) :=
+  if s1 ≠ 0 ∧ s2 ≠ 0 then []
+  else if s1 = -1 ∨ s2 = -1 then []
+  else if t1 = t2 then []
+  else if s1 = 0 ∧ s2 = 0 then
+    (if c1 ≠ c2 then wakeTreeWrites w n a t1 AWAKE_VAL ++ wakeTreeWrites w n a t2 AWAKE_VAL else [])
+  else wakeTreeWrites w n a (if s1 = 0 then t1 else t2) AWAKE_VAL
 
 /-! ## small concrete instances -/
 
